@@ -354,7 +354,7 @@ class HSM2ProtocolLedger(HSM2Protocol):
         try:
             self.ensure_connection()
             state = self.hsm2dongle.get_blockchain_state()
-        except (HSM2DongleError, HSM2DongleTimeoutError) as e:
+        except (HSM2DongleError, HSM2DongleErrorResult, HSM2DongleTimeoutError) as e:
             self.logger.error("Dongle error getting blockchain state: %s", str(e))
             return (self.ERROR_CODE_DEVICE,)
         except HSM2DongleCommError:
@@ -385,7 +385,7 @@ class HSM2ProtocolLedger(HSM2Protocol):
         try:
             self.ensure_connection()
             self.hsm2dongle.reset_advance_blockchain()
-        except (HSM2DongleError, HSM2DongleTimeoutError) as e:
+        except (HSM2DongleError, HSM2DongleErrorResult, HSM2DongleTimeoutError) as e:
             self.logger.error("Dongle error resetting advance blockchain: %s", str(e))
             return (self.ERROR_CODE_DEVICE,)
         except HSM2DongleCommError:
@@ -403,7 +403,7 @@ class HSM2ProtocolLedger(HSM2Protocol):
                 request["blocks"], request["brothers"]
             )
             return (self._translate_advance_result(advance_result[1]), {})
-        except (HSM2DongleError, HSM2DongleTimeoutError) as e:
+        except (HSM2DongleError, HSM2DongleErrorResult, HSM2DongleTimeoutError) as e:
             self.logger.error("Dongle error in advance blockchain: %s", str(e))
             return (self.ERROR_CODE_DEVICE,)
         except HSM2DongleCommError:
@@ -434,7 +434,7 @@ class HSM2ProtocolLedger(HSM2Protocol):
             self.ensure_connection()
             update_result = self.hsm2dongle.update_ancestor(request["blocks"])
             return (self._translate_update_ancestor_result(update_result[1]), {})
-        except (HSM2DongleError, HSM2DongleTimeoutError) as e:
+        except (HSM2DongleError, HSM2DongleErrorResult, HSM2DongleTimeoutError) as e:
             self.logger.error("Dongle error in update ancestor: %s", str(e))
             return (self.ERROR_CODE_DEVICE,)
         except HSM2DongleCommError:
@@ -466,7 +466,7 @@ class HSM2ProtocolLedger(HSM2Protocol):
                 "minimum_difficulty": params.min_required_difficulty,
                 "network": params.network.name.lower()}
             })
-        except (HSM2DongleError, HSM2DongleTimeoutError) as e:
+        except (HSM2DongleError, HSM2DongleErrorResult, HSM2DongleTimeoutError) as e:
             self.logger.error("Dongle error in get parameters: %s", str(e))
             return (self.ERROR_CODE_DEVICE,)
         except HSM2DongleCommError:
@@ -494,7 +494,7 @@ class HSM2ProtocolLedger(HSM2Protocol):
                     "s": heartbeat["signature"].s
                 }
             })
-        except (HSM2DongleError, HSM2DongleTimeoutError) as e:
+        except (HSM2DongleError, HSM2DongleErrorResult, HSM2DongleTimeoutError) as e:
             self.logger.error("Dongle error in signer heartbeat: %s", str(e))
             return (self.ERROR_CODE_DEVICE,)
         except HSM2DongleCommError:
@@ -568,7 +568,7 @@ class HSM2ProtocolLedger(HSM2Protocol):
                     "s": heartbeat["signature"].s
                 }
             })
-        except (HSM2DongleError, HSM2DongleTimeoutError) as e:
+        except (HSM2DongleError, HSM2DongleErrorResult, HSM2DongleTimeoutError) as e:
             self.logger.error("Dongle error in UI heartbeat: %s", str(e))
             return (self.ERROR_CODE_DEVICE,)
         except HSM2DongleCommError:
